@@ -971,8 +971,9 @@ impl Server {
                         self.in_copy_mode = false;
                     }
 
-                    // Remove the prepared statement from the cache, it has a syntax error or something else bad happened.
-                    if let Some(prepared_stmt_name) =
+                    // Remove the prepared statements from the cache: one has a syntax error or something else bad happened,
+                    // and the server skips the ones after it, like everything else up to the Sync.
+                    while let Some(prepared_stmt_name) =
                         self.registering_prepared_statement.pop_front()
                     {
                         if let Some(ref mut cache) = self.prepared_statement_cache {
